@@ -22,8 +22,8 @@ import TdModel.Gen.C07
 namespace TdModel.C07
 open TdModel
 
-def maxPast : Int := Facts.C07.maxPast
-def maxFuture : Int := Facts.C07.maxFuture
+def maxPast : Int := Facts.C07.pastLimitNs
+def maxFuture : Int := Facts.C07.futureLimitNs
 def bufSize : Nat := Facts.C07.bufSize
 def modulo : Int := Facts.C07.messageIDModulo
 def yieldServerResponse : Int := Facts.C07.yieldServerResponse
@@ -33,7 +33,7 @@ def maxPadding : Nat := Facts.C07.maxPadding
 
 /-- `MessageID.Type()` ∈ {FromServer, ServerResponse}: Go's `id % 4` truncates toward zero. -/
 def serverTyped (id : Int) : Bool :=
-  id.tmod modulo = yieldServerResponse || id.tmod modulo = yieldFromServer
+  Facts.C07.acceptedYields.contains (id.tmod modulo)
 
 /-- `int64(int32(id))`. -/
 def low32 (id : Int) : Int :=
@@ -43,36 +43,78 @@ def low32 (id : Int) : Int :=
 /-- `MessageID.Time()` in unix nanoseconds: `time.Unix(id >> 32, int64(int32(id)))`. -/
 def idTime (id : Int) : Int := (id / 4294967296) * 1000000000 + low32 id
 
-/-- `mtproto.checkMessageID(now, id) == nil`. -/
+/-- `a > b` or `a ≥ b`, as read from the source. -/
+def exceeds (strict : Bool) (a b : Int) : Bool := if strict then decide (a > b) else decide (a ≥ b)
+
+/-- `mtproto.checkMessageID(now, id) == nil`; the comparison operators, the `Before` guard and the
+bounds are the regenerated ones. -/
 def checkMessageID (now id : Int) : Bool :=
   serverTyped id &&
   let created := idTime id
-  !(decide (created < now) && decide (now - created > maxPast)) &&
-  !(decide (created - now > maxFuture))
+  !((!Facts.C07.pastGuarded || decide (created < now)) && exceeds Facts.C07.pastStrict (now - created) maxPast) &&
+  !(exceeds Facts.C07.futureStrict (created - now) maxFuture)
 
-/-- The loop of `MessageIDBuf.Consume`: `none` = an equal id was found (return false), otherwise
-the index and value of the first minimum, starting from the accumulator `(minIDx, minID)`. -/
-def scanMin (newID : Int) : List Int → Nat → Nat × Int → Option (Nat × Int)
+/-- A test inside the scan loop of `MessageIDBuf.Consume`. -/
+inductive Item where
+  | dup                  -- `if id == newID { return false }`
+  | min (strict : Bool)  -- `if id < minID { minIDx, minID = i, id }` (`<=` when not strict)
+  | other
+  deriving Repr, DecidableEq
+
+/-- The structure of `Consume` as read from the source by the fact extractor. -/
+structure Shape where
+  initFirst : Bool       -- minimum search starts from (0, buf[0]) rather than (0, 0)
+  exclusive : Bool       -- the tests are cases of one `switch` (first match wins)
+  items : List Item
+  tailStrict : Bool      -- `if newID < minID { return false }` (`<=` when false)
+  deriving Repr, DecidableEq
+
+def itemOf : Nat → Item
+  | 0 => .dup
+  | 1 => .min true
+  | 2 => .min false
+  | _ => .other
+
+def below (strict : Bool) (a b : Int) : Bool := if strict then decide (a < b) else decide (a ≤ b)
+
+/-- The tests of one loop iteration on slot `i` holding `id`: `none` = `return false`. -/
+def slotTests (excl : Bool) (x : Int) (i : Nat) (id : Int) : List Item → Nat × Int → Option (Nat × Int)
+  | [], acc => some acc
+  | .dup :: rest, acc => if id = x then none else slotTests excl x i id rest acc
+  | .min s :: rest, acc =>
+    if below s id acc.2 then (if excl then some (i, id) else slotTests excl x i id rest (i, id))
+    else slotTests excl x i id rest acc
+  | .other :: rest, acc => slotTests excl x i id rest acc
+
+/-- The scan loop: `none` = an iteration returned false, otherwise index and value of the minimum found. -/
+def scanW (sh : Shape) (x : Int) : List Int → Nat → Nat × Int → Option (Nat × Int)
   | [], _, acc => some acc
   | id :: rest, i, acc =>
-    if id = newID then none
-    else scanMin newID rest (i + 1) (if id < acc.2 then (i, id) else acc)
+    match slotTests sh.exclusive x i id sh.items acc with
+    | none => none
+    | some acc' => scanW sh x rest (i + 1) acc'
 
-/-- `MessageIDBuf.Consume` (repaired: the minimum search starts from `buf[0]`).
-An empty buffer (`NewMessageIDBuf(0)`) panics in Go; it rejects here and is never used. -/
-def consume (buf : List Int) (newID : Int) : List Int × Bool :=
+/-- `MessageIDBuf.Consume` for a given structure.  An empty buffer panics in Go; it rejects here. -/
+def consumeW (sh : Shape) (buf : List Int) (newID : Int) : List Int × Bool :=
   match buf with
   | [] => (buf, false)
   | b0 :: _ =>
-    match scanMin newID buf 0 (0, b0) with
+    match scanW sh newID buf 0 (0, if sh.initFirst then b0 else 0) with
     | none => (buf, false)
-    | some (minIDx, minID) => if newID < minID then (buf, false) else (buf.set minIDx newID, true)
+    | some (minIDx, minID) =>
+      if below sh.tailStrict newID minID then (buf, false) else (buf.set minIDx newID, true)
 
-/-- `MessageIDBuf.Consume` before the repair: `var minIDx int; var minID int64` start at 0. -/
+/-- The structure of the current source. -/
+def shape : Shape :=
+  { initFirst := Facts.C07.consumeInitFirst, exclusive := Facts.C07.consumeExclusive,
+    items := Facts.C07.consumeItems.map itemOf, tailStrict := Facts.C07.consumeTailStrict }
+
+/-- `MessageIDBuf.Consume` as it is in the source. -/
+def consume (buf : List Int) (newID : Int) : List Int × Bool := consumeW shape buf newID
+
+/-- `MessageIDBuf.Consume` before the repair of D1: minimum search started from zero values. -/
 def consumeOld (buf : List Int) (newID : Int) : List Int × Bool :=
-  match scanMin newID buf 0 (0, 0) with
-  | none => (buf, false)
-  | some (minIDx, minID) => if newID < minID then (buf, false) else (buf.set minIDx newID, true)
+  consumeW { initFirst := false, exclusive := false, items := [.dup, .min true], tailStrict := true } buf newID
 
 /-- `NewMessageIDBuf(n)`. -/
 def newBuf (n : Nat) : List Int := List.replicate n 0
@@ -111,8 +153,9 @@ structure Conn where
   buf : List Int
   deriving Repr, DecidableEq
 
-/-- `Conn.decryptMessage`: decrypt, session check, id check, replay buffer — in this order;
-`none` = error (the message is dropped).  Only the buffer can change, and only on acceptance. -/
+/-- `Conn.decryptMessage` with the checks in the canonical order decrypt, session, id, replay
+buffer; `none` = error (the message is dropped).  Only the buffer can change, and only on
+acceptance. -/
 def decryptMessage (c : Conn) (now : Int) (keyOk : Bool) (m : Msg) : Conn × Option Msg :=
   match cipherDecrypt keyOk m with
   | none => (c, none)
@@ -121,6 +164,28 @@ def decryptMessage (c : Conn) (now : Int) (keyOk : Bool) (m : Msg) : Conn × Opt
     else if checkMessageID now msg.msgId = false then (c, none)
     else if (consume c.buf msg.msgId).2 = false then (c, none)
     else ({ c with buf := (consume c.buf msg.msgId).1 }, some msg)
+
+/-- The checks after decryption, run in the order read from the source (1 session id, 2 message
+id, 3 replay buffer — the only one that changes state; anything else rejects: fail closed). -/
+def checksFrom (now : Int) (msg : Msg) : List Nat → Conn → Conn × Bool
+  | [], c => (c, true)
+  | 1 :: rest, c => if msg.session ≠ c.session then (c, false) else checksFrom now msg rest c
+  | 2 :: rest, c => if checkMessageID now msg.msgId = false then (c, false) else checksFrom now msg rest c
+  | 3 :: rest, c =>
+    if (consume c.buf msg.msgId).2 = false then (c, false)
+    else checksFrom now msg rest { c with buf := (consume c.buf msg.msgId).1 }
+  | _ :: _, c => (c, false)
+
+/-- `Conn.decryptMessage` with the order of checks of the current source (`Facts.C07.decryptOrder`). -/
+def decryptMessageW (order : List Nat) (c : Conn) (now : Int) (keyOk : Bool) (m : Msg) : Conn × Option Msg :=
+  match order with
+  | 0 :: rest =>
+    match cipherDecrypt keyOk m with
+    | none => (c, none)
+    | some msg =>
+      let r := checksFrom now msg rest c
+      if r.2 then (r.1, some msg) else (r.1, none)
+  | _ => (c, none)
 
 /-- What `Conn.consumeMessage` makes visible: the message handed to `handleMessage` (if any) and
 whether an acknowledgement is queued (`seqNo & 1`). -/
@@ -138,5 +203,44 @@ def consumeMessage (c : Conn) (now : Int) (keyOk : Bool) (m : Msg) : Conn × Eff
 def runConn : Conn → List (Int × Bool × Msg) → List Effect
   | _, [] => []
   | c, (now, k, m) :: rest => (consumeMessage c now k m).2 :: runConn (consumeMessage c now k m).1 rest
+
+/-- `consumeMessage` / `runConn` computed with the order of checks of the current source. -/
+def consumeMessageW (c : Conn) (now : Int) (keyOk : Bool) (m : Msg) : Conn × Effect :=
+  match decryptMessageW Facts.C07.decryptOrder c now keyOk m with
+  | (c', none) => (c', {})
+  | (c', some msg) => (c', { handled := some msg.msgId, ack := msg.seqNo % 2 = 1 })
+
+def runConnW : Conn → List (Int × Bool × Msg) → List Effect
+  | _, [] => []
+  | c, (now, k, m) :: rest => (consumeMessageW c now k m).2 :: runConnW (consumeMessageW c now k m).1 rest
+
+/-! ### the read loop -/
+
+/-- What `consumeMessage` returns to `readLoop` for one frame. -/
+inductive Outcome where
+  | handled (id : Int)   -- passed to handleMessage; nil
+  | dropped              -- errRejected: logged, nil — the connection goes on
+  | fatal                -- any other decryption error is returned: the loop halts
+  deriving Repr, DecidableEq
+
+/-- `Conn.consumeMessage` as seen by the read loop.  The cipher's error is not `errRejected`
+(`otherErrorsAreFatal`), the three later checks wrap `errRejected` (`decryptChecksReject`). -/
+def consumeOutcome (c : Conn) (now : Int) (keyOk : Bool) (m : Msg) : Conn × Outcome :=
+  match cipherDecrypt keyOk m with
+  | none => (c, .fatal)
+  | some _ =>
+    match decryptMessage c now keyOk m with
+    | (c', none) => (c', .dropped)
+    | (c', some msg) => (c', .handled msg.msgId)
+
+/-- `readLoop` over the frames it receives, in the order their `Consume` calls are serialised by
+the buffer's mutex: outcomes, and whether the loop halts ("halting" after a fatal outcome; frames
+already read are still processed, which only adds outcomes of the same kind). -/
+def readLoop : Conn → List (Int × Bool × Msg) → List Outcome × Bool
+  | _, [] => ([], false)
+  | c, (now, k, m) :: rest =>
+    let r := consumeOutcome c now k m
+    let tl := readLoop r.1 rest
+    (r.2 :: tl.1, decide (r.2 = Outcome.fatal) || tl.2)
 
 end TdModel.C07
